@@ -545,6 +545,27 @@ fn bds60(cx: &Cx) {
                 member(cx, "bds60:Mach", &j, "bds60", "Mach", mach, 1e-9, inside, &f);
             }
         }
+        // joint domain: every IAS 100..=450 kt x every Mach code between the ISA value at sea level (FL100 above
+        // 250 kt), +3 %, and the ISA value at FL350, -3 %, capped at 0.9: must be reported, both values equal
+        if df == 20 {
+            for ias in (100..=450u32).step_by(1) {
+                let cas = ias as f64;
+                let qc = (1.0 + 0.2 * (cas / 661.4786).powi(2)).powf(3.5) - 1.0; // impact pressure / P0
+                let mach_at = |delta: f64| (5.0 * ((qc / delta + 1.0).powf(2.0 / 7.0) - 1.0)).sqrt();
+                // above 250 kt the aircraft is taken to be above FL100 (the speed limit below it is what the
+                // decoder's documented plausibility rule relies on)
+                let floor = if ias > 250 { 0.6877 } else { 1.0 };
+                let (lo, hi) = (mach_at(floor) * 1.03, (mach_at(0.2353) * 0.97).min(0.9));
+                let (clo, chi) = ((lo / 0.004).ceil() as u32, (hi / 0.004).floor() as u32);
+                for c in clo..=chi {
+                    let f = commb_frame(df, &mb_bds60(Some(200), Some(ias), Some(c), Some(5), Some(6)));
+                    if let Some(j) = dj(cx, "bds60:IASxMach", &f) {
+                        member(cx, "bds60:IASxMach", &j, "bds60", "Mach", c as f64 * 0.004, 1e-9, true, &f);
+                        member(cx, "bds60:IASxMach", &j, "bds60", "IAS", cas, 0.0, true, &f);
+                    }
+                }
+            }
+        }
         for which in 0..2 {
             for c in 0..1024u32 {
                 if c & 0x1ff == 0x1ff || c & 0x1ff == 0 {
@@ -568,7 +589,8 @@ fn df20_as_bds05(cx: &Cx) {
     let me_alt = |code: u16| -> Option<i32> { r.ac13(((code & 0xfc0) << 1) | (code & 0x3f)).ok().flatten() };
     let hdr_alt = |code: u16| -> Option<i32> { r.ac13(code).ok().flatten() };
     let judge = |me_code: u16, hdr: u16| {
-        let f = df20_21(20, 0, 0, 0, hdr, &me_bds05(11, 0, 0, me_code, 0, 0, 93000, 51372), ADDR);
+      for tc in [11u8, 9, 18, 20, 21, 22] {
+        let f = df20_21(20, 0, 0, 0, hdr, &me_bds05(tc, 0, 0, me_code, 0, 0, 93000, 51372), ADDR);
         if let Some(j) = dj(cx, "bds05-in-DF20", &f) {
             if !j["bds05"].is_null() {
                 let (a, b) = (me_alt(me_code), hdr_alt(hdr));
@@ -579,13 +601,16 @@ fn df20_as_bds05(cx: &Cx) {
                 }
             }
         }
+      }
     };
+    let jobs = std::sync::Mutex::new(Vec::<(u16, u16)>::new());
+    let judge_later = |me_code: u16, hdr: u16| jobs.lock().unwrap().push((me_code, hdr));
     for me_code in 0..4096u16 {
         let c13 = ((me_code & 0xfc0) << 1) | (me_code & 0x3f);
         let mut hdrs = vec![c13, 0, c13 | 0x40, c13 ^ 1, c13 ^ 0x20, c13 ^ 0x80];
         if let Some(a) = me_alt(me_code) {
             // the other encoding of the same altitude, and the neighbouring steps
-            for d in [-100, -25, 0, 25, 100] {
+            for d in [-100, -75, -50, -25, 0, 25, 50, 75, 100] {
                 let v = a + d;
                 if v % 25 == 0 && (-1000..=50175).contains(&v) {
                     hdrs.push(ac13_q(v));
@@ -596,14 +621,20 @@ fn df20_as_bds05(cx: &Cx) {
             }
         }
         for h in hdrs {
-            judge(me_code, h & 0x1fff);
+            judge_later(me_code, h & 0x1fff);
         }
     }
     for me_code in [ac12_q(35000), ac12_q(0), ac12_q(-1000), 0x000, 0xfff, 0x7ef, 0x010, 0x011] {
         for h in 0..8192u16 {
-            judge(me_code, h);
+            judge_later(me_code, h);
         }
     }
+    let jobs = jobs.into_inner().unwrap();
+    par_ranges(16, jobs.len() as u64, 256, |lo, hi| {
+        for (m, h) in &jobs[lo as usize..hi as usize] {
+            judge(*m, *h);
+        }
+    });
     cx.rep.part("BDS 0,5 in DF20", cx.n.load(Ordering::Relaxed), json!({}));
 }
 
